@@ -23,6 +23,13 @@ def cases(tier):
             out.append(dict(c, kind='c08'))
         elif c['kind'] == 'cancel' and 'members 0,1' in c['name']:
             out.append(dict(c, kind='c08cancel'))
+    # acceptance must mean that EVERY submitted proof was checked: input sequences of different length are refused, not truncated to the shortest
+    for key in ('drop_last_transcript', 'drop_last_statement', 'drop_last_proof'):
+        for k in (2, 3):
+            members = [{'m': 1, 'cap': 1} for _ in range(k)]
+            members[-1] = dict(members[-1], tamper={'op': 'scalar_add_delta', 'elem': 3 + 1})   # the member that would fall off the end is invalid (r1 shifted; x = 1)
+            out.append({'cfg': {'scenario': 'batch', 'n': 4, 'x': 1, 'members': members, key: 1, 'actions': ['VerifyOnly', 'RecoverAndVerify']}, 'kind': 'shape',
+                        'name': 'batch of %d with %s=1 and an invalid last member' % (k, key)})
     for (n, m, cap, x) in lattice(tier):
         if n * m < 2:
             continue   # a proof with zero rounds cannot be decoded from bytes (C15); (1,1) is covered through the prover in C01
@@ -64,6 +71,12 @@ def analyse(ctx, case, run, S):
     if case['kind'] == 'c04':
         import props.c04 as c04
         return c04.analyse(ctx, dict(case, kind='verifier'), run, S)
+    if case['kind'] == 'shape':
+        for v in run.out.get('verify') or []:
+            ctx.expect(v['result'] != 'panic', 'C02:panic', '%s: PANIC (%s)' % (case['name'], v['action']), case['cfg'], 'any_panic')
+            ctx.expect(isinstance(v['result'], dict), 'C02:unchecked-member-accepted', '%s: returned %s (%s): a submitted proof was never checked' % (case['name'], v['result'], v['action']),
+                       case['cfg'], 'verify_not_refused')
+        return
     if case['kind'] in ('c08', 'c08cancel'):
         import props.c08 as c08
         return c08.analyse(ctx, dict(case, kind='adversarial' if case['kind'] == 'c08' else 'cancel'), run, S)
